@@ -170,9 +170,9 @@ func c16Case(c *Ctx) {
 			c16Preset(c, name)
 		}
 	case 4, 5: // shipped lists
-		name, list, file := "AgileWords", spg.AgileWords, "/repo/testdata/agwordlist.txt"
+		name, list, file := "AgileWords", spg.AgileWords, repoRoot()+"/testdata/agwordlist.txt"
 		if c.Case == 5 {
-			name, list, file = "AgileSyllables", spg.AgileSyllables, "/repo/testdata/agsyllables.txt"
+			name, list, file = "AgileSyllables", spg.AgileSyllables, repoRoot()+"/testdata/agsyllables.txt"
 		}
 		data, err := os.ReadFile(file)
 		if err != nil {
